@@ -57,7 +57,7 @@ func fullProject(work string, nsvc int) *types.Project {
 		}
 		s.Profiles = nil
 		if i == nsvc {
-			s.Profiles = []string{"extra"}
+			s.Profiles = []string{"zeta", "extra"} // not in sorted order: an operation handed this slice must leave it as it is
 		}
 		s.EnvFiles = []types.EnvFile{{Path: envFile, Required: true}}
 		s.LabelFiles = []string{labelFile}
@@ -81,8 +81,17 @@ func fullProject(work string, nsvc int) *types.Project {
 		for _, v := range s.Configs {
 			cfgKeys[v.Source] = true
 		}
+		// an extension declared without a value is an entry like any other
+		if s.Extensions == nil {
+			s.Extensions = types.Extensions{}
+		}
+		s.Extensions["x-declared-empty"] = nil
 		p.Services[s.Name] = s
 	}
+	if p.Extensions == nil {
+		p.Extensions = types.Extensions{}
+	}
+	p.Extensions["x-declared-empty"] = nil
 	one := func(m interface{}) {}
 	_ = one
 	// declare what the services use (taking the populated resource values), plus the populated unused entry
@@ -142,13 +151,24 @@ func c14Ops(rng *rand.Rand, nsvc int, empty bool) []c14Op {
 		// the argument is a slice of the receiver itself: the result must not keep it
 		{"WithProfiles(own)", func(p *types.Project) (*types.Project, error) {
 			if len(p.Profiles) == 0 {
-				q, err := p.WithProfiles([]string{"extra", "more"})
+				q, err := p.WithProfiles([]string{"more", "extra"})
 				if err != nil {
 					return nil, err
 				}
 				return q.WithProfiles(q.Profiles)
 			}
 			return p.WithProfiles(p.Profiles)
+		}},
+		// the argument is the profile list of one of the receiver's own services
+		{"WithProfiles(service)", func(p *types.Project) (*types.Project, error) {
+			for _, svcs := range []types.Services{p.DisabledServices, p.Services} {
+				for _, n := range sortedNames(svcs) {
+					if len(svcs[n].Profiles) > 1 {
+						return p.WithProfiles(svcs[n].Profiles)
+					}
+				}
+			}
+			return p.WithProfiles([]string{"zeta", "extra"})
 		}},
 		{"WithServicesEnabled", func(p *types.Project) (*types.Project, error) { return p.WithServicesEnabled(pick()...) }},
 		{"WithServicesDisabled", func(p *types.Project) (*types.Project, error) { return p.WithServicesDisabled(pick()...), nil }},
@@ -336,7 +356,7 @@ func C14(c *core.Ctx) {
 			}
 			clean, _ := opB.Fn(cur)
 			after := proj.Dump(cur)
-			ev := c14Event{Op: strings.TrimSuffix(strings.TrimSuffix(strings.TrimSuffix(op.Name, "(own)"), "(again)"), "(discard)"), Before: core.HashStr(before), After: core.HashStr(after), History: append(append([]string{}, hist...), op.Name)}
+			ev := c14Event{Op: strings.TrimSuffix(strings.TrimSuffix(strings.TrimSuffix(strings.TrimSuffix(op.Name, "(own)"), "(again)"), "(discard)"), "(service)"), Before: core.HashStr(before), After: core.HashStr(after), History: append(append([]string{}, hist...), op.Name)}
 			ev.Shared = sharedObjects(cur, victim)
 			ev.TopDiff, ev.SvcDiff = topAndSvcDiff(cur, victim)
 			ev.Leaks = []string{}
@@ -498,4 +518,13 @@ func headN(s []string, n int) []string {
 		return append(append([]string{}, s[:n]...), fmt.Sprintf("… %d more", len(s)-n))
 	}
 	return s
+}
+
+func sortedNames(s types.Services) []string {
+	var out []string
+	for k := range s {
+		out = append(out, k)
+	}
+	sort.Strings(out)
+	return out
 }
